@@ -147,6 +147,9 @@ def correspond(ctx: Ctx) -> Result:
         for j in range(rng.randint(3, 6)):
             leaves[f"k{j}"] = sg.gen_leaf(rng, kinds=("tensor", "tensor", "tensor", "tensor", "prim", "obj"))
         leaves["big"] = ("tensor", rng.choice(["float32", "int16", "float64", "bfloat16"]), [rng.choice([6, 9, 17]), 3], "contiguous", rng.getrandbits(32))
+        # designed leaves (every state has them; all destination kinds are tried under a mid-range budget, not one drawn kind):
+        # 'big' has its largest dim first, 'wide' its largest dim LAST (a tiled read along dim 0 is not a read along the largest dim)
+        leaves["wide"] = ("tensor", rng.choice(["float32", "int64", "float64"]), [3, rng.choice([7, 10, 17])], "contiguous", rng.getrandbits(32))
         state = {k: sg.build(s, None) for k, s in leaves.items()}
         expect = {k: sg.build(s, None) for k, s in leaves.items()}
         root = ctx.scratch("c18")
@@ -166,11 +169,14 @@ def correspond(ctx: Ctx) -> Result:
                     size = esize * want.numel()
                     cand = sorted({1, max(esize - 1, 1), esize, esize + 1, max(size // 2, 1), max(size, 1), size + 1})
                     budgets = [None] + rng.sample(cand, min(3 if not ctx.thorough else 9, len(cand)))
+                    designed_leaf = key in ("big", "wide")
+                    if designed_leaf:
+                        budgets = [None] + sorted(set(budgets[1:3] + [max(size // 2, 1), esize * int(want.shape[-1])]))
                     outs = ["none", "match", "mismatch"] + (["match-view"] if want.dim() >= 2 else [])
                 else:
-                    budgets, outs = [None, 1], ["none"]
+                    budgets, outs, designed_leaf = [None, 1], ["none"], False
                 for b in budgets:
-                    for ok in (outs if (ctx.thorough or b is None) else [rng.choice(outs)]):
+                    for ok in (outs if (ctx.thorough or b is None or designed_leaf) else [rng.choice(outs)]):
                         if ok == "match":
                             obj_out = torch.zeros(list(want.shape), dtype=want.dtype)
                         elif ok == "match-view":
